@@ -93,7 +93,7 @@ class TreeGen:
         L.append('  out_t b = %s;' % body_call)
         L.append('  if (b.r >= 2) return b;')
         L.append('  int ok = (b.r == 1);')
-        if s.action == 'bool' and e.name == 'named':
+        if s.action == 'bool' and r >= 0:      # vf::act_bool is attached to every identified rule (sub-rules included)
             L.append('  if (ok && a) { int v = c12_veto(%d, p); if (v == 2) { out_t x = { 3, p, %d, p, p }; return x; } if (v == 0) ok = 0; }' % (r, 3000 + r))
         if m is not None:
             L.append('  if (ok) { ts_close(i, b.pos, %d); return b; }' % m)
